@@ -49,7 +49,21 @@ type Case struct {
 	// Behind: the rps schedule was started in the past (core.Schedule.Start with an earlier time), so its leading tokens are
 	// overdue from the first moment on, as they are for instances that are slower than the schedule - without any real waiting.
 	Behind *Behind `json:"rps_started_in_the_past,omitempty"`
+	// QueueSize > 0 (phout): the option `sample-queue-size` of the phout aggregator (default 256K). With a small queue the
+	// instances find it full as soon as they report faster than the aggregator's goroutine writes - Report then waits for room.
+	QueueSize int `json:"phout_sample_queue_size,omitempty"`
+	// StartDelayMs > 0: the startup schedule begins with a pause of that length, so all instances start late - and, when the
+	// rps schedule was started in the past, find its overdue tokens that much later: a run that lasts longer than the 1 s
+	// flush period of the aggregators, with the discarded shots of all instances reported at full speed around the flush.
+	StartDelayMs int `json:"instances_start_after_ms,omitempty"`
 }
+
+// stormTokens: a Behind whose overdue sections hold that many tokens or more is a storm of discarded shots (the instances do
+// nothing but acquire, give back and report for a while); defined with discard_overflow only - shot for real they would
+// take minutes.
+const stormTokens = 1000
+
+func (c Case) storm() bool { return c.Behind != nil && c.Behind.certain() >= stormTokens }
 
 // Behind describes a shared rps schedule that starts Ms milliseconds before the run: Lead are its sections that lie in the
 // past, padded with a pause up to Ms; the sections of Case.Rps (or the single `once`) follow and begin when the run begins.
@@ -186,7 +200,17 @@ type Plain struct {
 	DateHeader string `json:"date_middleware,omitempty"`
 	// HostHeader (uri / uripost): the file carries a `[Host: ..]` directive (raw and http/json entries always name a host).
 	HostHeader bool `json:"host_header,omitempty"`
+	// BodyKiB > 0 (uripost / raw / http/json): every entry carries a body of BodyKiB KiB and 101 bytes more per entry index,
+	// filled with the entry's own letter: such a request does not fit into the 4 KiB that the standard library's readers
+	// buffer, so most of the body is still read from the ammo's memory while the gun sends it - after the instance acquired
+	// it and while the provider goroutine decodes further entries for other instances.
+	BodyKiB int `json:"body_kib,omitempty"`
+	// PadHeader > 0 (raw / http/json): every entry carries a header X-Pad of that many bytes of the entry's own letter.
+	PadHeader int `json:"pad_header_bytes,omitempty"`
 }
+
+// big: the requests of the file exceed 4 KiB.
+func (p *Plain) big() bool { return p != nil && (p.BodyKiB > 0 || p.PadHeader >= 4096) }
 
 // redelivered: the same decoded ammo object is handed out more than once (to different instances).
 func (p *Plain) redelivered(shots int) bool {
@@ -253,6 +277,25 @@ func (c Case) sharedObjects() []string {
 			out = append(out, "http_preloaded_ammo", "http_fmt_"+p.Format)
 		default:
 			out = append(out, "http_streamed_ammo", "http_fmt_"+p.Format)
+		}
+		if p.BodyKiB > 0 {
+			how := "streamed"
+			if p.Preload {
+				how = "preloaded"
+			}
+			out = append(out, "http_big_body", "http_big_body_fmt_"+p.Format, "http_big_body_"+how, "http_big_body_"+p.Format+"_"+how)
+			if p.Entries > 1 {
+				out = append(out, "http_big_body_differs_per_entry")
+				if !p.Preload {
+					out = append(out, "http_big_body_differs_per_entry_streamed_"+p.Format)
+				}
+			}
+			if p.DateHeader != "" {
+				out = append(out, "http_big_body_with_date_middleware")
+			}
+		}
+		if p.PadHeader > 0 {
+			out = append(out, "http_big_header")
 		}
 		if p.Format != "grpcjson" {
 			re := p.redelivered(c.Shots)
@@ -364,6 +407,18 @@ func (c Case) scheduleClasses() []string {
 			out = append(out, "rps_composite_with_gradual_startup")
 		}
 	}
+	if c.StartDelayMs > 0 {
+		out = append(out, "startup_delayed")
+	}
+	if c.storm() {
+		out = append(out, "discard_storm", "discard_storm_agg_"+c.Agg)
+		if c.StartDelayMs > 0 {
+			out = append(out, "discard_storm_after_delayed_startup")
+			if c.Agg == "phout" && c.QueueSize > 0 {
+				out = append(out, "discard_storm_after_delayed_startup_phout_small_queue")
+			}
+		}
+	}
 	if c.DiscardOverflow {
 		out = append(out, "discard_overflow_on")
 	} else {
@@ -445,6 +500,41 @@ func genBehind(t *rapid.T, shots int) *Behind {
 		burst(50)
 	}
 	return b
+}
+
+// stormPerMs: overdue tokens per millisecond between the late
+// start of the instances and the 1 s mark (more than the instances of a pool discard per ms: one provider goroutine hands
+// the ammo out one by one), so that the storm is still on when the aggregator flushes for the first time.
+const stormPerMs = 120
+
+// genStorm makes the case a run that is longer than the aggregators' flush period of 1 s, with all instances reporting at
+// full speed around the periodic flush: the instances start 0.85-0.94 s late (a pause at the head of the startup schedule) and
+// then find 9-24 thousand tokens of the shared rps schedule overdue by more than 2 s, which discard_overflow makes them drop -
+// acquire, give back, report the `discarded` sample - one after the other without any waiting. The ammo of the case itself
+// follow as in every other case. In 8 of 10 such cases the aggregator is phout, mostly with a small `sample-queue-size`.
+func genStorm(t *rapid.T, c *Case) {
+	c.StartDelayMs = rapid.IntRange(850, 940).Draw(t, "startDelayMs")
+	k := (1000-c.StartDelayMs)*stormPerMs + rapid.IntRange(2000, 6000).Draw(t, "stormTokens")
+	b := &Behind{Ms: rapid.IntRange(2200, 4000).Draw(t, "behindMs")}
+	early := b.Ms - overdueMs
+	switch rapid.IntRange(0, 2).Draw(t, "stormShape") {
+	case 0:
+		b.Lead = []Section{{Type: "once", Tokens: k}}
+	case 1:
+		b.Lead = []Section{{Type: "const", Tokens: k, DurMs: rapid.IntRange(1, min(early, 50)).Draw(t, "overdueMs")}}
+	default:
+		n := rapid.IntRange(1, k-1).Draw(t, "firstBurst")
+		b.Lead = []Section{{Type: "once", Tokens: n}, {Type: "const", DurMs: rapid.IntRange(1, early/2).Draw(t, "overduePauseMs")}, {Type: "once", Tokens: k - n}}
+	}
+	c.Behind = b
+	c.Shots += k
+	c.DiscardOverflow = true
+	if rapid.IntRange(0, 9).Draw(t, "stormPhout") < 8 {
+		c.Agg = "phout"
+		c.QueueSize = rapid.SampledFrom([]int{1, 1, 2, 2, 16, 0}).Draw(t, "phoutQueue")
+	} else if c.Agg != "phout" {
+		c.QueueSize = 0
+	}
 }
 
 // genRps draws 2-4 short sections whose switches all happen while ammo is left: the once / const sections before
@@ -589,7 +679,8 @@ func genCase(t *rapid.T, r *vf.Run) Case {
 	switch c.Kind {
 	case kindHTTP:
 		c.Plain = &Plain{
-			Format:  rapid.SampledFrom([]string{"uri", "uripost", "raw", "jsonline"}).Draw(t, "format"),
+			// (rapid's SampledFrom favours the head of the list; raw keeps the request text of the file as it is)
+			Format:  rapid.SampledFrom([]string{"uri", "raw", "uripost", "jsonline", "raw"}).Draw(t, "format"),
 			Entries: rapid.IntRange(1, 8).Draw(t, "entries"),
 			Preload: rapid.Bool().Draw(t, "preload"),
 		}
@@ -599,6 +690,20 @@ func genCase(t *rapid.T, r *vf.Run) Case {
 			c.Plain.Array = rapid.Bool().Draw(t, "jsonArray")
 		case "uri", "uripost":
 			c.Plain.HostHeader = rapid.IntRange(0, 2).Draw(t, "hostHeader") == 0
+		}
+		if f := c.Plain.Format; f != "uri" {
+			// requests that exceed the 4 KiB of the standard library's readers: half of the files with bodies (raw, the format
+			// that keeps the request text as it is in the file: 7 of 10)
+			odds := 5
+			if f == "raw" {
+				odds = 7
+			}
+			if rapid.IntRange(0, 9).Draw(t, "bigBody") < odds {
+				c.Plain.BodyKiB = rapid.IntRange(5, 30).Draw(t, "bodyKiB")
+			}
+			if f != "uripost" {
+				c.Plain.PadHeader = rapid.SampledFrom([]int{0, 0, 0, 700, 2500, 5000}).Draw(t, "padHeader")
+			}
 		}
 	case kindGRPC:
 		c.Plain = &Plain{Format: "grpcjson", Entries: rapid.IntRange(1, 8).Draw(t, "entries")}
@@ -612,7 +717,13 @@ func genCase(t *rapid.T, r *vf.Run) Case {
 	if c.Kind == kindGRPC {
 		behind = 7 // the provider whose ammo objects are pooled: a discarded shot hands its object back for the next entry
 	}
-	if rapid.IntRange(0, 9).Draw(t, "rpsBehind") < behind {
+	if c.Agg == "phout" {
+		c.QueueSize = rapid.SampledFrom([]int{0, 0, 0, 1, 2, 16}).Draw(t, "phoutQueue")
+	}
+	if rapid.IntRange(0, 9).Draw(t, "discardStorm") == 8 {
+		// (rapid's IntRange favours small values and the bounds: 8 comes up in 6-7 draws of 100; a storm costs 1-1.5 s per round)
+		genStorm(t, &c)
+	} else if rapid.IntRange(0, 9).Draw(t, "rpsBehind") < behind {
 		c.Behind = genBehind(t, c.Shots)
 		c.DiscardOverflow = rapid.IntRange(0, 4).Draw(t, "discardOverflow") > 0
 	} else {
@@ -624,6 +735,9 @@ func genCase(t *rapid.T, r *vf.Run) Case {
 	}
 	if rapid.IntRange(0, 9).Draw(t, "gradualStartup") < 4 {
 		c.Startup = genStartup(t, c.Instances)
+	}
+	if c.StartDelayMs == 0 && rapid.IntRange(0, 19).Draw(t, "startDelay") == 0 {
+		c.StartDelayMs = rapid.IntRange(1, 40).Draw(t, "startDelayMs") // a short pause before the first instance
 	}
 	steer(&c, r)
 	return c
@@ -670,8 +784,12 @@ func (c Case) validate() error {
 			return fmt.Errorf("case of kind %s without ammo description", c.Kind)
 		}
 		if p := c.Plain; (p.Array && p.Format != "jsonline") || (p.HostHeader && p.Format != "uri" && p.Format != "uripost") ||
-			(c.Kind == kindGRPC && (p.DateHeader != "" || p.Preload)) {
+			(c.Kind == kindGRPC && (p.DateHeader != "" || p.Preload)) ||
+			(p.BodyKiB != 0 && (p.Format == "uri" || p.Format == "grpcjson")) || (p.PadHeader != 0 && p.Format != "raw" && p.Format != "jsonline") {
 			return fmt.Errorf("ammo options that format %s does not have", p.Format)
+		}
+		if p := c.Plain; p.BodyKiB < 0 || p.BodyKiB > 48 || p.PadHeader < 0 || p.PadHeader > 8000 || p.Entries > 26 {
+			return fmt.Errorf("bodies of 0..48 KiB, pad headers of 0..8000 bytes and up to 26 entries are defined")
 		}
 	case kindHTTPScen, kindGRPCScen:
 		if c.Scen == nil {
@@ -710,6 +828,18 @@ func (c Case) validate() error {
 		if b.Ms < overdueMs || b.Ms > 20000 || b.leadMs() > b.Ms || b.leadTokens() < 1 || b.leadTokens() >= c.Shots {
 			return fmt.Errorf("a schedule started in the past needs 2..20 s, overdue sections that fit in and hold 1..%d tokens", c.Shots-1)
 		}
+	}
+	if c.QueueSize < 0 || (c.QueueSize > 0 && c.Agg != "phout") {
+		return fmt.Errorf("sample-queue-size is generated for phout only (a full queue makes Report wait; the jsonlines reporter drops samples by design)")
+	}
+	if c.StartDelayMs < 0 || c.StartDelayMs > 5000 {
+		return fmt.Errorf("the instances start 0..5 s late")
+	}
+	if b := c.Behind; b != nil && !c.DiscardOverflow && b.leadTokens() > 200 {
+		return fmt.Errorf("%d overdue tokens are defined with discard_overflow only (they would all be shot at once)", b.leadTokens())
+	}
+	if b := c.Behind; b != nil && (b.leadTokens() > 200000 || b.leadTokens()-b.certain() > 200) {
+		return fmt.Errorf("up to 200000 overdue tokens, up to 200 of them less than 2 s overdue")
 	}
 	if len(c.Rps) > 0 {
 		if err := validateSections(c.Rps, "rps"); err != nil {
